@@ -68,7 +68,7 @@ end
 /-! ### with the pickler's memo as index -/
 
 section
-variable {mc : MCfg} {hook : Hook}
+variable {mc : MCfg} {hook : Hook} {mz : Option PKey → Bool}
 
 theorem pushesG_get_str (p : Nat) (s : PSt) (k : PKey) (idx : Nat) (v : PyObj) (hf : s.find k = some idx)
     (hv : ∀ n hp, RepG mc.cfg n hp (valOf p k) v) :
@@ -99,8 +99,9 @@ theorem parses_cpStr (p : Nat) (txt b : Bytes) (h : cpStr p txt = some b) : Pars
       simp only [parseInsn, Rd.bind, readByte, parseArg_86, Rd.mapE, readLine_line _ _ hlf, parseUnicodeArg, hinv, Rd.pure]
 
 /-- `save_unicode` with the memo, as a constant push (nothing is allocated). -/
-theorem saveStrS_okV (p : Nat) (s s' : PSt) (key : Option PKey) (txt b : Bytes)
-    (hkey : ∀ k, key = some k → valOf p k = .str txt) (h : saveStrS p s key txt = some (b, s')) :
+theorem saveStrS_okV (p : Nat) (s s' : PSt) (key putKey : Option PKey) (txt b : Bytes)
+    (hkey : ∀ k, key = some k → valOf p k = .str txt) (hpk : ∀ k, putKey = some k → valOf p k = .str txt)
+    (h : saveStrS mz p s key putKey txt = some (b, s')) :
     PushesV mc hook (ecfg p) (MemoInv p) b (.str txt) s s' := by
   unfold saveStrS at h
   cases hfind : key.bind s.find with
@@ -120,7 +121,7 @@ theorem saveStrS_okV (p : Nat) (s s' : PSt) (key : Option PKey) (txt b : Bytes)
     | none => simp [hcs] at h
     | some b0 =>
       simp only [hcs] at h
-      cases hput : putS p s key with
+      cases hput : putS mz p s putKey with
       | none => simp [hput] at h
       | some r =>
         obtain ⟨pb, s1⟩ := r
@@ -130,13 +131,14 @@ theorem saveStrS_okV (p : Nat) (s s' : PSt) (key : Option PKey) (txt b : Bytes)
           refine RunsP.one (parses_cpStr p txt b0 hcs) ?_
           intro pos st _ hj
           exact ⟨push st (.str txt), rfl, rfl, MemoInv.memoOnly p s st _ rfl hj, rfl, rfl⟩
-        exact hv.put (putOK_S p s s1 key pb hput) rfl (fun k hk => (hkey k hk).symm)
+        exact hv.put (putOK_S p s s1 putKey pb hput) rfl (fun k hk => (hpk k hk).symm)
 
 /-- `save_unicode` with the memo: fetched if memoized, else written and memoized. -/
-theorem saveStrS_ok (p : Nat) (s s' : PSt) (key : Option PKey) (txt b : Bytes)
-    (hkey : ∀ k, key = some k → valOf p k = .str txt) (h : saveStrS p s key txt = some (b, s')) :
+theorem saveStrS_ok (p : Nat) (s s' : PSt) (key putKey : Option PKey) (txt b : Bytes)
+    (hkey : ∀ k, key = some k → valOf p k = .str txt) (hpk : ∀ k, putKey = some k → valOf p k = .str txt)
+    (h : saveStrS mz p s key putKey txt = some (b, s')) :
     PushesG mc hook (ecfg p) (MemoInv p) b (.str txt) s s' :=
-  (saveStrS_okV p s s' key txt b hkey h).toG (fun n hp => by simp [RepG])
+  (saveStrS_okV p s s' key putKey txt b hkey hpk h).toG (fun n hp => by simp [RepG])
 
 theorem parses_global (m n : Bytes) (hm : (10 : UInt8) ∉ m) (hn : (10 : UInt8) ∉ n) :
     Parses (99 :: m ++ [10] ++ n ++ [10]) [.global m n] := by
@@ -149,7 +151,7 @@ theorem parses_global (m n : Bytes) (hm : (10 : UInt8) ∉ m) (hn : (10 : UInt8)
 /-- `save_global` of one of the builtins: fetched if memoized, else GLOBAL (or, from protocol 4 on, two strings
     and STACK_GLOBAL) and memoized. -/
 theorem saveGlobalS_ok (p : Nat) (s s' : PSt) (key : PKey) (m n b : Bytes) (hkey : valOf p key = .cls m n)
-    (hm : (10 : UInt8) ∉ m) (hn : (10 : UInt8) ∉ n) (h : saveGlobalS p s key m n = some (b, s')) :
+    (hm : (10 : UInt8) ∉ m) (hn : (10 : UInt8) ∉ n) (h : saveGlobalS mz p s key m n = some (b, s')) :
     PushesV mc hook (ecfg p) (MemoInv p) b (.cls m n) s s' := by
   unfold saveGlobalS at h
   cases hfind : s.find key with
@@ -163,24 +165,24 @@ theorem saveGlobalS_ok (p : Nat) (s s' : PSt) (key : PKey) (m n b : Bytes) (hkey
     simp only [hfind] at h
     by_cases h4 : p ≥ 4
     · simp only [h4, if_true] at h
-      cases h1 : saveStrS p s none m with
+      cases h1 : saveStrS mz p s none none m with
       | none => simp [h1] at h
       | some r1 =>
         obtain ⟨b1, s1⟩ := r1
         simp only [h1] at h
-        cases h2 : saveStrS p s1 none n with
+        cases h2 : saveStrS mz p s1 none none n with
         | none => simp [h2] at h
         | some r2 =>
           obtain ⟨b2, s2⟩ := r2
           simp only [h2] at h
-          cases hput : putS p s2 (some key) with
+          cases hput : putS mz p s2 (some key) with
           | none => simp [hput] at h
           | some r3 =>
             obtain ⟨pb, s3⟩ := r3
             simp only [hput, Option.some.injEq, Prod.mk.injEq] at h
             obtain ⟨rfl, rfl⟩ := h
-            have hs1 := saveStrS_okV (mc := mc) (hook := hook) p s s1 none m b1 (fun _ hk => by cases hk) h1
-            have hs2 := saveStrS_okV (mc := mc) (hook := hook) p s1 s2 none n b2 (fun _ hk => by cases hk) h2
+            have hs1 := saveStrS_okV (mc := mc) (hook := hook) p s s1 none none m b1 (fun _ hk => by cases hk) (fun _ hk => by cases hk) h1
+            have hs2 := saveStrS_okV (mc := mc) (hook := hook) p s1 s2 none none n b2 (fun _ hk => by cases hk) (fun _ hk => by cases hk) h2
             have hsg : PushesV mc hook (ecfg p) (MemoInv p) (b1 ++ b2 ++ [0x93]) (.cls m n) s s2 := by
               refine RunsP.snoc (RunsP.seq hs1 hs2 (fun _ _ _ _ q => q.1)) (parses_op 0x93 .stackGlobal rfl parseArg_147) ?_
               intro pos st st2 _ _ ⟨st1, _, ⟨_, hst1, hh1⟩, hj2, hst2, hh2⟩
@@ -190,7 +192,7 @@ theorem saveGlobalS_ok (p : Nat) (s s' : PSt) (key : PKey) (m n b : Bytes) (hkey
               simp only [show ¬ (st.stack.length + 1 + 1 < 2) by omega, if_false]
             exact hsg.put (putOK_S p s2 s3 (some key) pb hput) rfl (fun k hk => by injection hk with hk; subst hk; exact hkey.symm)
     · simp only [h4, if_false] at h
-      cases hput : putS p s (some key) with
+      cases hput : putS mz p s (some key) with
       | none => simp [hput] at h
       | some r3 =>
         obtain ⟨pb, s3⟩ := r3
